@@ -329,3 +329,29 @@ pub fn capture_stdout(f: impl FnOnce()) -> String {
     }
     out
 }
+
+
+/// Crash attribution: where a property itself promises "does not panic" (extraction, explanation,
+/// use of old handles) the check marks that phase. The mark is written to a file only in the
+/// single-run re-execution that the driver starts after the process died, so that a stack overflow
+/// or abort inside that phase can be reported as a violation of that property.
+pub static PHASE_FILE: std::sync::OnceLock<String> = std::sync::OnceLock::new();
+
+pub fn set_phase(p: &str) {
+    if let Some(f) = PHASE_FILE.get() {
+        let _ = std::fs::write(f, p);
+    }
+}
+
+pub struct PhaseGuard;
+
+impl Drop for PhaseGuard {
+    fn drop(&mut self) {
+        set_phase("");
+    }
+}
+
+pub fn phase(p: &str) -> PhaseGuard {
+    set_phase(p);
+    PhaseGuard
+}
